@@ -136,8 +136,40 @@ func (m *model) feed(items []Item, freshName func(pos int) (string, bool)) (ok b
 	return true
 }
 
+// oddMarker: a marker whose name itself contains parentheses. Where such a marker ends cannot be
+// told from the text, so an unpatched one may stay or go (not judged); a patched one must be
+// replaced like any other.
+const oddName = "f(x)"
+
+var oddMarker = "@@thriftgo_insertion_point(" + oddName + ")"
+
+func (f *mFile) hasPatch(ip string) bool {
+	for _, p := range f.patches {
+		if p.ip == ip {
+			return true
+		}
+	}
+	return false
+}
+
 func (f *mFile) render() string {
-	return markerRe.ReplaceAllStringFunc(f.content, func(mk string) string {
+	content := f.content
+	if strings.Contains(content, oddMarker) {
+		var sb strings.Builder
+		n := 0
+		for _, p := range f.patches {
+			if p.ip == oddName {
+				sb.WriteString(p.content)
+				n++
+			}
+		}
+		if n > 0 {
+			content = strings.ReplaceAll(content, oddMarker, sb.String())
+		} else {
+			content = strings.ReplaceAll(content, oddMarker, "")
+		}
+	}
+	return markerRe.ReplaceAllStringFunc(content, func(mk string) string {
 		var sb strings.Builder
 		for _, p := range f.patches {
 			if "@@thriftgo_insertion_point("+p.ip+")" == mk {
@@ -226,7 +258,11 @@ func checkHistory(h history) (class, what string, terminal bool) {
 			return "output-has-insertion-point", fmt.Sprintf("output file %d still has an insertion point", i), false
 		}
 		want := mf.render()
-		if g.Content != want {
+		got := g.Content
+		if strings.Contains(mf.content, oddMarker) && !mf.hasPatch(oddName) {
+			got = strings.ReplaceAll(got, oddMarker, "") // unpatched marker with parentheses in its name: not judged
+		}
+		if got != want {
 			cls := "content-mismatch"
 			if markerRe.MatchString(g.Content) {
 				cls = "marker-not-removed"
@@ -239,13 +275,13 @@ func checkHistory(h history) (class, what string, terminal bool) {
 
 func alphabet() (files, patches, named []Item) {
 	x, y := mk("x"), mk("y")
-	contents := []string{"plain", "h" + x + "t", x + "m" + y + "m" + x, "other", "o" + mk("p-1 q") + "o"}
+	contents := []string{"plain", "h" + x + "t", x + "m" + y + "m" + x, "other", "o" + mk("p-1 q") + "o", "w" + mk(oddName) + "w"}
 	for _, n := range []string{"A.go", "A_1.go", "B.txt"} {
 		for _, c := range contents {
 			files = append(files, Item{Name: n, Content: c})
 		}
 	}
-	for _, ip := range []string{"x", "y", "z", "p-1 q"} {
+	for _, ip := range []string{"x", "y", "z", "p-1 q", oddName} {
 		for _, c := range []string{"P", "Q"} {
 			patches = append(patches, Item{IP: ip, Content: c})
 		}
